@@ -6,7 +6,9 @@ CONSTANTS
   CoefVals = {0, 1, 4, 7, 10}
   MsgVals = {6}
   Kinds = {"ok", "bad", "wrongmsg", "other", "stale"}
-  MaxArrivals = 4
+  MaxArrivals = 6
   MaxPerParty = 2
+  MaxInvalid = 6
+VIEW MCView
 INVARIANTS TypeOK C33_Cap C33_OnlyValidStored C33_SeedIffThreshold C33_SeedFunction
 CHECK_DEADLOCK FALSE
